@@ -7,6 +7,7 @@ server's rebuild (`Store.latest` applies the log as remote operations) gives equ
 -/
 import Orda.Proofs.Protocol
 import Orda.Proofs.ProtocolJoin
+import Orda.Proofs.DocNet
 namespace Orda.Props.C05
 open Orda
 
@@ -67,5 +68,27 @@ theorem log_is_exactly_issued_with_late_joiners {cuids : List (String × Bool)} 
     (∀ cl ∈ S.clients, S.log.filter (fun o => o.id.cuid = cl.base.cuid) =
       if cl.joined then cl.base.buf.take (S.recOf cl.base.cuid).cseq else []) :=
   join_log_is_exactly_issued h
+
+/-! ### documents: clients that sync through one log hold the same document — and so does a passive copy
+`DNet` (Proofs/DocNet): n replicas and one server log, any interleaving of calls, pushes and pulls.  A node that never
+calls and only pulls IS the copy the server rebuilds from its stored log (`Replica.new` + the log's operations in order). -/
+
+open Orda.DNet Orda.DA in
+/-- once every client has synced with nothing left to push or pull, all clients — and a passive node that only
+    replayed the log, i.e. the server's rebuilt copy — hold `ASim`-equal documents with the same JSON value -/
+theorem doc_clients_and_server_copy_identical (cuid : Nat → String) (n : Nat) (net : Net) (h : Reach cuid n net)
+    (hq : Quiescent net) (i j : Nat) (hi : i < net.nodes.length) (hj : j < net.nodes.length) (di dj : Doc)
+    (hsi : net.nodes[i].r.state = .doc di) (hsj : net.nodes[j].r.state = .doc dj) :
+    ASim di dj ∧ di.view.canon = dj.view.canon :=
+  net_quiescent_converged net h hq i j hi hj di dj hsi hsj
+
+open Orda.DNet Orda.DA in
+/-- two clients that are both caught up (everything of their own pushed, the whole log pulled) agree already,
+    whatever the other clients still hold back -/
+theorem doc_caught_up_clients_identical (cuid : Nat → String) (n : Nat) (net : Net) (h : Reach cuid n net)
+    (i j : Nat) (hi : i < net.nodes.length) (hj : j < net.nodes.length) (di dj : Doc)
+    (hsi : net.nodes[i].r.state = .doc di) (hsj : net.nodes[j].r.state = .doc dj) (hso : SameOps net i j) :
+    ASim di dj ∧ di.view.canon = dj.view.canon :=
+  net_same_operations_same_document net h i j hi hj di dj hsi hsj hso
 
 end Orda.Props.C05
